@@ -650,6 +650,7 @@ Definition amt_neg (m : amount) : bool :=
 Definition p_reshape (fill : option elem) (sc : bool) (amts : list amount) (a : arr) : res arr :=
   if existsb (fun m => match m with AFrac | ANaN => true | _ => false end) amts then Err else
   if existsb (fun m => match m with AInt z => (amt_limit <? Z.abs z)%Z | _ => false end) amts then Unspec else
+  if (8 <? zlen amts)%Z then Unspec else       (* resource guard: the implementation limits the number of axes *)
   if (size_limit <? zprod (map (fun m => match m with AInt z => Z.abs z | _ => 1%Z end) amts) * Z.max 1 (zlen (adata a)))%Z then Unspec else
   if sc then
     match amts with
